@@ -233,7 +233,36 @@ func TestVerifLegacyExport(t *testing.T) {
 
 // ---- building concrete messages on the NEW generated types along a path of proto field names
 const vu8Placeholder = "bad@#@# tail" // "@#@#" is overwritten with raw invalid bytes in the wire encoding
-func vu8Repaired() string             { return "bad� tail" }
+
+// the supported failure-chain depth (failure + 9 nested causes); pinned here, not read from the code under test
+const vu8SupportedDepth = 10
+
+// kinds of invalid content written over the 4-byte marker: invalid runs of 4, 3, 2 and 1 bytes and two separate runs. perRun /
+// perByte: what the marker's place reads after a repair that puts one U+FFFD per invalid run / per invalid byte (both satisfy
+// "only the offending bytes are replaced by U+FFFD").
+type vu8Seq struct {
+	raw             []byte
+	perRun, perByte string
+}
+
+var vu8Seqs = []vu8Seq{
+	{[]byte{0xff, 0xfe, 0xff, 0xfe}, "\ufffd", "\ufffd\ufffd\ufffd\ufffd"},
+	{[]byte{0x80, 0x80, 0xbf, 0x80}, "\ufffd", "\ufffd\ufffd\ufffd\ufffd"},
+	{[]byte{0xc0, 0xaf, 0xc0, 0xaf}, "\ufffd", "\ufffd\ufffd\ufffd\ufffd"},
+	{[]byte{0xed, 0xa0, 0x80, 0xff}, "\ufffd", "\ufffd\ufffd\ufffd\ufffd"},
+	{[]byte{0xf8, 0x88, 0x80, 0x80}, "\ufffd", "\ufffd\ufffd\ufffd\ufffd"},
+	{[]byte{0xf0, 0x9f, 0x98, 'x'}, "\ufffdx", "\ufffd\ufffd\ufffdx"},       // a 4-byte rune cut short: run of 3
+	{[]byte{0xe2, 0x82, 'y', 'z'}, "\ufffdyz", "\ufffd\ufffdyz"},            // run of 2
+	{[]byte{'q', 0xff, 'r', 's'}, "q\ufffdrs", "q\ufffdrs"},                 // run of 1
+	{[]byte{0xfe, 'm', 0xe2, 0x82}, "\ufffdm\ufffd", "\ufffdm\ufffd\ufffd"}, // two runs
+}
+
+func vu8Repaired(q vu8Seq, perByte bool) string {
+	if perByte {
+		return "bad" + q.perByte + " tail"
+	}
+	return "bad" + q.perRun + " tail"
+}
 
 func vu8Build(m protoreflect.Message, path []string, leaf string) error {
 	md := m.Descriptor()
@@ -317,7 +346,10 @@ type vu8Oblig struct {
 		Other bool   `json:"other"` // invalid UTF-8 in a non-failure string
 		Depth string `json:"depth"` // "in" (<= max) | "at" (= max) | "over" (> max)
 		Wire  string `json:"wire"`  // "ok" | "truncated"
+		Prior string `json:"prior"` // what this process decoded for the same type just before: "none" | "overdeep" | "repaired"
 	} `json:"class"`
+	Deep bool `json:"deep"` // kind path: the failure message sits at the end of a cause chain of exactly the supported depth
+	Seq  int  `json:"seq"`  // which kind of invalid content
 }
 
 func vu8Codecs() (encoding.CodecV2, encoding.CodecV2) {
@@ -341,8 +373,6 @@ func vu8Descriptor(full string) protoreflect.MessageDescriptor {
 	return d.(protoreflect.MessageDescriptor)
 }
 
-var vu8BadSeqs = [][]byte{{0xff, 0xfe, 0xff, 0xfe}, {0x80, 0x80, 0xbf, 0x80}, {0xc0, 0xaf, 0xc0, 0xaf}, {0xed, 0xa0, 0x80, 0xff}, {0xf8, 0x88, 0x80, 0x80}}
-
 func TestVerifUtf8Obligations(t *testing.T) {
 	in := os.Getenv("VERIF_IN")
 	if in == "" {
@@ -362,6 +392,7 @@ func TestVerifUtf8Obligations(t *testing.T) {
 	defer w.Flush()
 	enc := json.NewEncoder(w)
 	ours, std := vu8Codecs()
+	poisoned := map[string]bool{}
 	sc := bufio.NewScanner(f)
 	sc.Buffer(make([]byte, 1<<20), 1<<26)
 	for sc.Scan() {
@@ -372,7 +403,7 @@ func TestVerifUtf8Obligations(t *testing.T) {
 		if err := json.Unmarshal(sc.Bytes(), &ob); err != nil {
 			t.Fatalf("bad obligation: %v", err)
 		}
-		rec := map[string]interface{}{"ev": "Utf8", "id": ob.ID, "kind": ob.Kind, "type": ob.Type, "path": ob.Path, "class": ob.Class,
+		rec := map[string]interface{}{"ev": "Utf8", "id": ob.ID, "kind": ob.Kind, "type": ob.Type, "path": ob.Path, "class": ob.Class, "deep": ob.Deep, "seq": ob.Seq % len(vu8Seqs),
 			"built": false, "ok": false, "err": "", "all_valid": false, "equals_reference": false, "std_ok": false, "same_as_std": false}
 		func() {
 			md := vu8Descriptor(ob.Type)
@@ -381,21 +412,69 @@ func TestVerifUtf8Obligations(t *testing.T) {
 				return
 			}
 			msg := vu8New(md)
-			bad := vu8BadSeqs[ob.ID%len(vu8BadSeqs)]
+			q := vu8Seqs[ob.Seq%len(vu8Seqs)]
+			bad := q.raw
 			nbad := 1
 			expectRepairable := true
-			var reference proto.Message
+			var reference, reference2 proto.Message // one U+FFFD per run / per byte
 			if ob.Kind == "path" {
-				if err := vu8Build(msg.ProtoReflect(), ob.Path, vu8Placeholder); err != nil {
+				path := ob.Path
+				if ob.Deep {
+					path = append([]string{}, ob.Path[:len(ob.Path)-1]...)
+					for i := 1; i < vu8SupportedDepth; i++ {
+						path = append(path, "cause")
+					}
+					path = append(path, "message")
+				}
+				// once per type and process: a message of this type whose failure chain is too deep went through the codec before
+				if !poisoned[ob.Type] {
+					poisoned[ob.Type] = true
+					pp := append([]string{}, ob.Path[:len(ob.Path)-1]...)
+					for i := 0; i < vu8SupportedDepth+1; i++ {
+						pp = append(pp, "cause")
+					}
+					pp = append(pp, "message")
+					pm := vu8New(md)
+					if err := vu8Build(pm.ProtoReflect(), pp, vu8Placeholder); err == nil {
+						if pw, err := proto.Marshal(pm); err == nil {
+							pw = bytes.ReplaceAll(pw, []byte("@#@#"), bad)
+							_ = vu8Unmarshal(ours, pw, vu8New(md))
+						}
+					}
+				}
+				if err := vu8Build(msg.ProtoReflect(), path, vu8Placeholder); err != nil {
 					rec["err"] = "build: " + err.Error()
 					return
 				}
-				reference = vu8New(md)
-				_ = vu8Build(reference.ProtoReflect(), ob.Path, vu8Repaired())
+				reference, reference2 = vu8New(md), vu8New(md)
+				_ = vu8Build(reference.ProtoReflect(), path, vu8Repaired(q, false))
+				_ = vu8Build(reference2.ProtoReflect(), path, vu8Repaired(q, true))
 			} else {
 				// abstract classes are realised on RespondWorkflowTaskFailedRequest (failure + identity) or, for the
 				// unconvertible root, on a message type the conversion tables do not know
-				reference = vu8New(md)
+				reference, reference2 = vu8New(md), vu8New(md)
+				both := func(path []string, a, b string) {
+					_ = vu8Build(reference.ProtoReflect(), path, a)
+					_ = vu8Build(reference2.ProtoReflect(), path, b)
+				}
+				// the history of this process for this type (the codec must not remember anything)
+				if ob.Class.Root == "conv" && ob.Class.Prior != "none" {
+					pm := vu8New(md)
+					pp := []string{"failure"}
+					if ob.Class.Prior == "overdeep" {
+						for i := 0; i < vu8SupportedDepth+1; i++ {
+							pp = append(pp, "cause")
+						}
+					}
+					_ = vu8Build(pm.ProtoReflect(), append(pp, "message"), vu8Placeholder)
+					_ = vu8Build(pm.ProtoReflect(), []string{"namespace"}, "prior-namespace")
+					_ = vu8Build(pm.ProtoReflect(), []string{"binary_checksum"}, "prior-checksum")
+					_ = vu8Build(pm.ProtoReflect(), []string{"messages", "id"}, "prior-message")
+					if pw, err := proto.Marshal(pm); err == nil {
+						pw = bytes.ReplaceAll(pw, []byte("@#@#"), bad)
+						_ = vu8Unmarshal(ours, pw, vu8New(md))
+					}
+				}
 				if ob.Class.Root == "unconv" {
 					// a type the conversion tables do not know: invalid bytes (if any) go into its namespace field
 					v := "fine"
@@ -406,9 +485,9 @@ func TestVerifUtf8Obligations(t *testing.T) {
 						rec["err"] = "build: " + err.Error()
 						return
 					}
-					_ = vu8Build(reference.ProtoReflect(), []string{"namespace"}, "fine")
+					both([]string{"namespace"}, "fine", "fine")
 				} else {
-					depth := map[string]int{"in": 3, "at": maxFailureDepth, "over": maxFailureDepth + 1}[ob.Class.Depth]
+					depth := map[string]int{"in": 3, "at": vu8SupportedDepth, "over": vu8SupportedDepth + 1}[ob.Class.Depth]
 					chain := []string{"failure"}
 					for i := 1; i < depth; i++ {
 						chain = append(chain, "cause")
@@ -419,15 +498,15 @@ func TestVerifUtf8Obligations(t *testing.T) {
 							rec["err"] = "build: " + err.Error()
 							return
 						}
-						_ = vu8Build(reference.ProtoReflect(), p, vu8Repaired())
+						both(p, vu8Repaired(q, false), vu8Repaired(q, true))
 					} else {
 						p := append(append([]string{}, chain...), "message")
 						_ = vu8Build(msg.ProtoReflect(), p, "fine")
-						_ = vu8Build(reference.ProtoReflect(), p, "fine")
+						both(p, "fine", "fine")
 					}
 					if ob.Class.Fail >= 2 {
 						_ = vu8Build(msg.ProtoReflect(), []string{"failure", "message"}, vu8Placeholder)
-						_ = vu8Build(reference.ProtoReflect(), []string{"failure", "message"}, vu8Repaired())
+						both([]string{"failure", "message"}, vu8Repaired(q, false), vu8Repaired(q, true))
 						nbad++
 						if depth == 1 {
 							nbad--
@@ -464,7 +543,7 @@ func TestVerifUtf8Obligations(t *testing.T) {
 				rec["err"] = err.Error()
 			} else {
 				rec["all_valid"] = vu8AllStringsValid(got.ProtoReflect())
-				rec["equals_reference"] = proto.Equal(got, reference)
+				rec["equals_reference"] = proto.Equal(got, reference) || proto.Equal(got, reference2)
 			}
 			// what the standard codec does with the same bytes (transparency clause)
 			stdGot := vu8New(md)
